@@ -486,6 +486,92 @@ static bool fanCase(const vh::Args &a, long k, int argc, char **argv) {
     return true;
 }
 
+// Seventh family ("twin-narrow-first" / "twin-wide-first"): TWO independent corridors in one dimension, 1000 apart: a wide one
+// (120 free, nw = 2..4 connectors crossing it, all centred onto its middle line, so they have to be separated by the full
+// nudging distance) and a narrow one (width d/20 .. 2.5 d, nn = 2..4 connectors: its region needs reduced distances or is given
+// up after ten attempts). The regions of a pass are processed in the order of the router's connector list (descending id), so
+// the group that gets the HIGHER connector indices is processed first: both orders are generated. What happens in the narrow
+// region must not influence the wide one (every region starts again at idealNudgingDistance:
+// Props/C10Region.first_attempt_uses_base_distance). The wide-enough promise (cfg) is for the connectors of the wide corridor
+// only: `twin lo hi` = their index range.
+static bool twinCase(const vh::Args &a, long k, int argc, char **argv) {
+    vh::Rng r = vh::caseRng(a.seed, k, 6);
+    static const double ds[] = {1, 4, 10};
+    double d = ds[r.range(0, 2)];
+    int nw = (int) r.range(2, 4), nn = (int) r.range(2, 4), m = nw + nn;
+    bool narrowFirst = r.coin();                              // narrow group gets the higher ids = is processed first
+    bool transpose = r.coin();
+    bool defaults = r.coin();
+    unsigned opts = defaults ? (4u | 8u) : (unsigned) (2 * r.range(0, 15));
+    static const double fr[] = {0.05, 0.125, 0.5, 1.0, 1.5, 2.5};
+    double gapN = d * fr[r.range(0, 5)];
+    double seg = r.coin() ? 50.0 : 10.0;
+    double Ww = 120;
+    auto P = [&](double x, double y) { return transpose ? Point(y, x) : Point(x, y); };
+    auto mkRect = [&](double xa, double y0_, double xb, double y1_) {
+        Point p = P(xa, y0_), q = P(xb, y1_);
+        return Rectangle(Point(std::min(p.x, q.x), std::min(p.y, q.y)), Point(std::max(p.x, q.x), std::max(p.y, q.y)));
+    };
+    int wlo = narrowFirst ? 0 : nn, whi = wlo + nw;            // index range of the wide corridor's connectors
+    vh::beginCase(k, narrowFirst ? "twin-narrow-first" : "twin-wide-first");
+    printf("cfg %s %s %d %d %s %u %s %d twin %d %d %s\n", hx(d).c_str(), hx(Ww).c_str(), m, 1, hx(0.0).c_str(), opts, hx(0.0).c_str(),
+           (int) transpose, wlo, whi, hx(gapN).c_str());
+    Router *router = nullptr;
+    try {
+        router = new Router(OrthogonalRouting);
+        router->setTransactionUse(true);
+        router->setRoutingParameter(segmentPenalty, seg);
+        router->setRoutingParameter(idealNudgingDistance, d);
+        router->setRoutingOption(nudgeOrthogonalSegmentsConnectedToShapes, false);
+        router->setRoutingOption(nudgeOrthogonalTouchingColinearSegments, (opts & 2) != 0);
+        router->setRoutingOption(performUnifyingNudgingPreprocessingStep, (opts & 4) != 0);
+        router->setRoutingOption(nudgeSharedPathsWithCommonEndPoint, (opts & 8) != 0);
+        router->setRoutingOption(penaliseOrthogonalSharedPathsAtConnEnds, (opts & 16) != 0);
+        Rectangle w1 = mkRect(200, -100, 300, 250 - Ww / 2), w2 = mkRect(200, 250 + Ww / 2, 300, 600);
+        Rectangle n1 = mkRect(1200, -100, 1300, 250 - gapN / 2), n2 = mkRect(1200, 250 + gapN / 2, 1300, 600);
+        Rectangle *rs[4] = {&w1, &w2, &n1, &n2};
+        for (int i = 0; i < 4; ++i) {
+            printf("obstacle %s %s %s %s\n", hx(rs[i]->ps[3].x).c_str(), hx(rs[i]->ps[3].y).c_str(), hx(rs[i]->ps[1].x).c_str(), hx(rs[i]->ps[1].y).c_str());
+            new ShapeRef(router, *rs[i], (unsigned) (1 + i));
+        }
+        std::vector<ConnRef *> conns(m, nullptr);
+        std::vector<Point> S(m), T(m);
+        for (int g = 0; g < 2; ++g) {                          // g = 0 wide, 1 narrow
+            int cnt = g ? nn : nw, base = g ? (narrowFirst ? nw : 0) : wlo;
+            double x0 = g ? 1000.0 : 0.0;
+            for (int j = 0; j < cnt; ++j) {
+                bool up = (j % 2 == 0);                        // source above, target below (or the other way round)
+                double ys = up ? 100 - 9.0 * j : 400 + 9.0 * j, yt = up ? 400 + 9.0 * j + 4 : 100 - 9.0 * j - 4;
+                S[base + j] = P(x0 + 100 - 25.0 * j, ys);
+                T[base + j] = P(x0 + 400 + 25.0 * j, yt);
+            }
+        }
+        for (int i = 0; i < m; ++i) {
+            printf("conn %d %s %s %s %s\n", i, hx(S[i].x).c_str(), hx(S[i].y).c_str(), hx(T[i].x).c_str(), hx(T[i].y).c_str());
+            conns[i] = new ConnRef(router, ConnEnd(S[i]), ConnEnd(T[i]), (unsigned) (100 + i));
+            conns[i]->setRoutingType(ConnType_Orthogonal);
+        }
+        fflush(stdout);
+        c10r::arm();
+        router->processTransaction();
+        c10r::dump();
+        for (int i = 0; i < m; ++i) {
+            pts("route", i, conns[i]->route(), transpose);
+            pts("disp", i, conns[i]->displayRoute(), transpose);
+        }
+        printf("overlap %d\n", (int) router->existsOrthogonalSegmentOverlap());
+        vh::endCase();
+        delete router;
+    } catch (vpsc::CriticalFailure &f) {
+        c10r::dump();
+        printf("assert %s\n", oneLine(f.what()).c_str());
+        vh::endCase();
+        if (a.only >= 0) _exit(0);
+        reexecFrom(k + 1, argc, argv);
+    }
+    return true;
+}
+
 int main(int argc, char **argv) {
     vh::Args a = vh::parseArgs(argc, argv);
     bool thorough = (a.tier == "thorough");
@@ -498,8 +584,13 @@ int main(int argc, char **argv) {
     long nzc = (thorough ? 4000 : 800) * a.scale;          // fourth family, after the third
     long nse = (thorough ? 3000 : 500) * a.scale;          // fifth family, after the fourth
     long nfan = (thorough ? 2500 : 400) * a.scale;         // sixth family, after the fifth
-    for (long k = from; k < ncases + nmid + ntie + nzc + nse + nfan; ++k) {
+    long ntw = (thorough ? 3000 : 500) * a.scale;          // seventh family, after the sixth
+    for (long k = from; k < ncases + nmid + ntie + nzc + nse + nfan + ntw; ++k) {
         if (!a.want(k)) continue;
+        if (k >= ncases + nmid + ntie + nzc + nse + nfan) {
+            if (!twinCase(a, k, argc, argv)) return 0;
+            continue;
+        }
         if (k >= ncases + nmid + ntie + nzc + nse) {
             if (!fanCase(a, k, argc, argv)) return 0;
             continue;
